@@ -13,6 +13,70 @@ class Boom(Exception):
     pass
 
 
+def fake_chains(ctx):
+    """consecutive run() calls on one pool of fake workers (the deterministic driver of C07) vs Pool.nextRun:
+    what the second run does must not depend on the first one's bookkeeping"""
+    import poolcheck as PC
+    import pool_driver as D
+    rng = ctx.rng
+    chains = []
+    for _ in range(120 if not ctx.thorough else 1500):
+        n = rng.choice([1, 2, 2, 3])
+        extra = rng.choice([0, 0, 1])
+        case = dict(n=n, inputs=list(range(1, rng.randint(0, 5) + 1)), extra=extra, retry=True, rr=True,
+                    deaths=rng.choice([0, 0, 1, 2]), refused=set(), poison=set(), pre=[])
+        script1, r1 = PC.random_script(rng, case)
+        runs = [(case['inputs'], [], script1)]
+        if r1['outcome'] not in ('returned', 'poolerror'):
+            continue
+        for _k in range(rng.choice([1, 1, 2])):
+            inputs2 = [10 * (len(runs)) + i for i in range(1, rng.randint(0, 4) + 1)]
+            pre2 = []
+            if rng.random() < 0.3:
+                pre2 = [('d', rng.randrange(n), rng.random() < 0.5)]
+            script2 = []
+            deaths_left = rng.choice([0, 0, 1])
+            for _ in range(40):
+                outs = D.run_chain(n, runs + [(inputs2, pre2, script2)], extra=extra)
+                r2 = outs[-1]
+                if len(outs) < len(runs) + 1 or r2['outcome'] != 'running':
+                    break
+                evs = r2['env'].enabled(r2.get('present', set()), deaths_left)
+                if not evs:
+                    break
+                ev = rng.choices(evs, [3 if e[0] == 'p' else 2 if e[0] == 'w' else 1 for e in evs])[0]
+                if ev[0] == 'd':
+                    deaths_left -= 1
+                script2.append(ev)
+            runs.append((inputs2, pre2, script2))
+        chains.append((n, extra, runs))
+    model = ctx.model([D.chain_line(n, runs, extra=extra) for n, extra, runs in chains])
+    for i, (n, extra, runs) in enumerate(chains):
+        outs = D.run_chain(n, runs, extra=extra)
+        real = []
+        for r in outs:
+            o = 'noworkers' if (r['outcome'] == 'returned' and r.get('none') and not r['ret'] and not r['enq']) else r['outcome']
+            real.append((o, r['ret'], r['enq'], r['closed']))
+        line = D.chain_line(n, runs, extra=extra)
+        ctx.case(('chain', line), len(runs) > 1, sample={'case': line, 'outcomes': [x[0] for x in real]} if i % 23 == 0 else None)
+        ctx.count('chain-run2:' + (real[1][0] if len(real) > 1 else 'none'))
+        for k, (r, (inputs, pre, script)) in enumerate(zip(outs, runs)):
+            if k >= 1 and r['outcome'] == 'returned' and not r.get('none') and sorted(r['ret']) != sorted(inputs):
+                ctx.fail('run-results-not-its-inputs', f'run #{k + 1} on the same pool returned {r["ret"]} for inputs {inputs} (previous runs: {[x[0] for x in real[:k]]})',
+                         {'scenario': 'fake-chain', 'line': line})
+            if k >= 1 and r['outcome'] == 'poolerror' and any(r['env'].alive[j] and j not in r['closed'] for j in range(n)):
+                ctx.fail('later-run-poolerror-with-live-worker', f'run #{k + 1} on the same pool raised PoolError although a usable worker is alive', {'scenario': 'fake-chain', 'line': line})
+            if r['outcome'].startswith('internal') or r['outcome'] == 'livelock':
+                ctx.fail(f'later-run-{r["outcome"]}', f'run #{k + 1} on the same pool ended with {r["outcome"]}', {'scenario': 'fake-chain', 'line': line})
+        if model is not None:
+            ctx.cov['traces_validated_against_impl'] += 1
+            ms = [D.parse_model(x) for x in model[i].split(' || ')]
+            got = [(o, ret, enq, closed) for o, ret, enq, closed in real]
+            exp = [(o, ret, enq, closed) for o, ret, enq, closed in ms][:len(got)]
+            if got != exp:
+                ctx.broke('correspondence', 'Pool.nextRun vs consecutive Pool.run calls', f'{line}\n model={model[i]}\n impl ={real}')
+
+
 def gen_history(rng, remote_ok):
     kinds = ['thread', 'process', 'process'] + (['remote'] if remote_ok else [])
     h = [('add', rng.choice(kinds), 'ok') for _ in range(rng.randint(1, 3))]
@@ -32,6 +96,17 @@ def gen_history(rng, remote_ok):
             h.append(('add', rng.choice(kinds), rng.choice(['ok', 'ctor-fails', 'registration-fails'])))
         else:
             h.append(('run', [rng.randint(0, 9) for _ in range(rng.randint(1, 4))]))
+    # a run() while a worker is stuck in an uncooperative target never ends - legitimately: C07/C09 presuppose that every
+    # worker eventually answers or dies. Such a run is replaced by a forced restart (which must get rid of the stuck child).
+    stuck_pending = False
+    for i, op in enumerate(h):
+        if op[0] == 'stuck':
+            stuck_pending = True
+        elif op[0] == 'restart' and len(op) == 1:
+            stuck_pending = False
+        elif op[0] == 'run' and stuck_pending:
+            h[i] = ('restart',)
+            stuck_pending = False
     h.append(('exit', rng.choice(['normal', 'exception', 'close', 'terminate'])))
     return h
 
@@ -198,7 +273,12 @@ def main(ctx: Ctx):
     ]
     ctx.cov['rule'] = ('seeded histories (<= 8 ops) over {add_worker ok / constructor fails / registration fails, run(inputs incl. poison), restart_workers, SIGKILL or terminate a worker, make a worker stuck in an uncooperative target, '
                        'leave the with-block normally / by exception, close(), terminate()} on real mixed thread/process pools (remote in some histories); non-trivial = history contains a death, a stuck worker, a failed add or a restart; distinct by history')
+    import translate
+    errors, _ = translate.regenerate_poolreset()      # T-reset: Gen/PoolReset.lean from the prologue of Pool.run
+    for e in errors:
+        ctx.broke('translation', 'harness/translate.py (T-reset)', e)
     ctx.lean()
+    fake_chains(ctx)
     T = ctx.thorough
     rng = ctx.rng
     hists = [
